@@ -1,0 +1,83 @@
+//! Verification hooks (only compiled with `--cfg mos_verif`): a per-thread pass observer and a
+//! fuel counter for the code generator. Both are inert until a harness installs them.
+
+use std::cell::{Cell, RefCell};
+
+/// What the observer sees after every assembly pass.
+pub struct PassInfo {
+    pub pass_idx: usize,
+    /// Order independent digest of (symbol values, undefined set, errors of this pass)
+    pub digest: u64,
+    pub num_undefined: usize,
+    pub num_errors: usize,
+    /// (path, value) of every numeric symbol
+    pub symbols: Vec<(String, i64)>,
+}
+
+type Observer = Box<dyn FnMut(&PassInfo) -> bool>;
+
+thread_local! {
+    static OBSERVER: RefCell<Option<Observer>> = RefCell::new(None);
+    static FUEL: Cell<i64> = Cell::new(i64::MAX);
+    static FUEL_EXHAUSTED: Cell<bool> = Cell::new(false);
+    static STOPPED: Cell<bool> = Cell::new(false);
+}
+
+/// Installs an observer for the current thread; it returns `true` to stop the pass loop.
+pub fn set_pass_observer(observer: Observer) {
+    OBSERVER.with(|o| *o.borrow_mut() = Some(observer));
+}
+
+pub fn clear_pass_observer() {
+    OBSERVER.with(|o| *o.borrow_mut() = None);
+}
+
+pub fn has_pass_observer() -> bool {
+    OBSERVER.with(|o| o.borrow().is_some())
+}
+
+/// Returns `true` when the pass loop should stop.
+pub fn after_pass(info: &PassInfo) -> bool {
+    let stop = OBSERVER.with(|o| match o.borrow_mut().as_mut() {
+        Some(observer) => observer(info),
+        None => false,
+    });
+    if stop {
+        STOPPED.with(|s| s.set(true));
+    }
+    stop
+}
+
+/// Did the observer stop the last code generation on this thread?
+pub fn was_stopped() -> bool {
+    STOPPED.with(|s| s.get())
+}
+
+/// Sets the number of tokens/scopes that may still be emitted on this thread.
+pub fn set_fuel(fuel: i64) {
+    FUEL.with(|f| f.set(fuel));
+    FUEL_EXHAUSTED.with(|f| f.set(false));
+    STOPPED.with(|s| s.set(false));
+}
+
+/// Burns one unit; `true` when the tank is empty.
+pub fn burn() -> bool {
+    FUEL.with(|f| {
+        let left = f.get();
+        if left <= 0 {
+            FUEL_EXHAUSTED.with(|e| e.set(true));
+            true
+        } else {
+            f.set(left - 1);
+            false
+        }
+    })
+}
+
+pub fn fuel_exhausted() -> bool {
+    FUEL_EXHAUSTED.with(|f| f.get())
+}
+
+pub fn fuel_left() -> i64 {
+    FUEL.with(|f| f.get())
+}
